@@ -153,7 +153,7 @@ pub fn gen_graph(rng: &mut Rng, o: &GraphOpts) -> Scenario {
         proj.targets.push(t);
     }
     files.push(FileSpec { path: "p0/out".into(), kind: FileKind::Dir });
-    Scenario { label: format!("{}{}", big, FAMILIES[family]), projects: vec![proj], files, vars: BTreeMap::new(), steps: vec![] }
+    Scenario { focus: None, label: format!("{}{}", big, FAMILIES[family]), projects: vec![proj], files, vars: BTreeMap::new(), steps: vec![] }
 }
 
 /// A request list over project 0: roots preferred, sometimes a dependency together with its
@@ -418,7 +418,7 @@ pub fn gen_io(rng: &mut Rng, o: &IoOpts) -> Scenario {
     for p in &projects {
         files.push(FileSpec { path: format!("{}/out", p.dir), kind: FileKind::Dir });
     }
-    Scenario { label: format!("io-{}proj-layout{}", np, layout), projects, files, vars, steps: vec![] }
+    Scenario { focus: None, label: format!("io-{}proj-layout{}", np, layout), projects, files, vars, steps: vec![] }
 }
 
 /// Requests for multi-project scenarios, relative to the entry project.
